@@ -168,7 +168,14 @@ func genStream(r *Rng, prop, phase string, knob bool, pEarly, pErr float64) []*S
 	return []*Scenario{s}
 }
 
-var stdReaders = []string{"bytes.Buffer", "bytes.Buffer", "bytes.Reader", "strings.Reader", "bufio.Reader", "bufio.Reader", "section-advanced", "bytes.Reader-advanced", "os.File", "os.Pipe", "os.File-grown"}
+var stdReaders = []string{"bytes.Buffer", "bytes.Buffer", "bytes.Reader", "strings.Reader", "bufio.Reader", "bufio.Reader", "section-advanced", "bytes.Reader-advanced", "os.File", "os.Pipe"}
+
+// "os.File-grown" (a file that is empty when NewBlockParser is handed it and
+// is filled before the first NextBlock) is still understood by the reader for
+// old replay files but is NOT generated: nothing in C08 says that reading must
+// be lazy, and a parser that drains an io.WriterTo reader at construction -
+// legitimately - sees an empty stream there (false alarm on the benign patch
+// newblockparser-writerto-fastpath, see DESIGN.md).
 
 var scribbleKinds = []string{"garbage", "newline", "nul", "data"}
 
